@@ -2430,6 +2430,8 @@ struct Outcome {
     closed_at_end: bool,
     steps: Vec<String>,
     problem: Option<String>,
+    /// scheduling points hit while a delay plan was installed
+    sched_hits: u64,
 }
 
 struct E2eParams {
@@ -2458,6 +2460,7 @@ async fn e2e_script(rng: &mut Rng, ps: &mut Parsers, prm: &E2eParams, k: u64) ->
         closed_at_end: false,
         steps: Vec::new(),
         problem: None,
+        sched_hits: 0,
     };
     let Some((bgp_port, api_port)) = pick_ports(k) else {
         out.problem = Some("no free port in this process's block".into());
@@ -3330,6 +3333,8 @@ fn judge_station_c19(rep: &mut Report, ps: &mut Parsers, out: &Outcome, sti: usi
     let want_post = matches!(st.policy, 2 | 3 | 5);
     let want_loc = matches!(st.policy, 4 | 5);
     let mut up: BTreeMap<IpAddr, UpInfo> = BTreeMap::new();
+    // sessions whose PeerDown this station has been found to have read
+    let mut downs_matched: BTreeSet<usize> = BTreeSet::new();
     let mut folds: BTreeMap<(IpAddr, u8), BTreeMap<RouteKey, RouteVal>> = BTreeMap::new();
     let mut locrib: BTreeMap<RouteKey, RouteVal> = BTreeMap::new();
     let mut eor_at: BTreeMap<(IpAddr, u8, u32), usize> = BTreeMap::new();
@@ -3538,102 +3543,82 @@ fn judge_station_c19(rep: &mut Report, ps: &mut Parsers, out: &Outcome, sti: usi
                     id: cfg.router_id.octets(),
                     ts: None,
                 };
-                let mut fail: Option<Finding> = None;
-                if let Err((c, d)) = check_hdr(hdr, &e) {
-                    fail = Some(finding(
-                        "peer-down",
-                        &c,
-                        "per-peer header of the PeerDown does not describe the peer",
-                        d,
-                        &[],
-                    ));
-                } else if let Some(cl) = &s.close {
-                    let parsed = if *reason == 1 || *reason == 3 {
-                        match ps.parse(data, false, false) {
-                            Ok(ParsedMessage::Notification(n)) => Some(n),
-                            _ => None,
-                        }
-                    } else {
-                        None
-                    };
+                let parsed = if *reason == 1 || *reason == 3 {
+                    match ps.parse(data, false, false) {
+                        Ok(ParsedMessage::Notification(n)) => Some(n),
+                        _ => None,
+                    }
+                } else {
+                    None
+                };
+                // does this PeerDown say how session `x` ended?  Err(clause, what, detail); Ok(false) = not observed
+                let mut against = |x: &Session| -> Result<bool, (&'static str, &'static str, String)> {
+                    let Some(cl) = &x.close else { return Ok(false) };
                     match (cl.kind, &cl.sent, &cl.received) {
                         (CloseKind::Notify, Some(n), _) => {
                             if *reason != 3 {
-                                fail = Some(finding(
-                                    "peer-down",
-                                    "reason/remote-notification",
-                                    "the peer ended the session with a NOTIFICATION; the PeerDown does not say so (reason 3 + the NOTIFICATION)",
-                                    format!(
-                                        "reason {} data {}; peer sent {}",
-                                        reason,
-                                        hex(data),
-                                        notif_str(n)
-                                    ),
-                                    &[],
-                                ));
-                            } else if !parsed.as_ref().is_some_and(|g| notif_eq(g, n)) {
-                                fail = Some(finding(
-                                    "peer-down",
-                                    "notification-differs/remote",
-                                    "NOTIFICATION in the PeerDown is not the one the peer sent",
-                                    format!(
-                                        "PeerDown carries {:?}; peer sent {}",
-                                        parsed.as_ref().map(notif_str),
-                                        notif_str(n)
-                                    ),
-                                    &[],
-                                ));
+                                return Err(("reason/remote-notification", "the peer ended the session with a NOTIFICATION; the PeerDown does not say so (reason 3 + the NOTIFICATION)", format!("reason {} data {}; peer sent {}", reason, hex(data), notif_str(n))));
                             }
+                            if !parsed.as_ref().is_some_and(|g| notif_eq(g, n)) {
+                                return Err(("notification-differs/remote", "NOTIFICATION in the PeerDown is not the one the peer sent", format!("PeerDown carries {:?}; peer sent {}", parsed.as_ref().map(notif_str), notif_str(n))));
+                            }
+                            Ok(true)
                         }
                         (CloseKind::Provoke, _, Some(raw)) => {
                             let wire = match ps.parse(raw, false, false) {
-                                Ok(ParsedMessage::Notification(n)) => Some(n),
-                                _ => None,
+                                Ok(ParsedMessage::Notification(n)) => n,
+                                _ => return Ok(false),
                             };
-                            if let Some(n) = wire {
-                                if *reason != 1 {
-                                    fail = Some(finding(
-                                        "peer-down",
-                                        "reason/local-notification",
-                                        "the daemon ended the session with a NOTIFICATION; the PeerDown does not say so (reason 1 + the NOTIFICATION)",
-                                        format!(
-                                            "reason {} data {}; daemon sent {}",
-                                            reason,
-                                            hex(data),
-                                            notif_str(&n)
-                                        ),
-                                        &[],
-                                    ));
-                                } else if !parsed.as_ref().is_some_and(|g| notif_eq(g, &n)) {
-                                    fail = Some(finding(
-                                        "peer-down",
-                                        "notification-differs/local",
-                                        "NOTIFICATION in the PeerDown is not the one the daemon sent",
-                                        format!(
-                                            "PeerDown carries {:?}; daemon sent {}",
-                                            parsed.as_ref().map(notif_str),
-                                            notif_str(&n)
-                                        ),
-                                        &[],
-                                    ));
-                                }
+                            if *reason != 1 {
+                                return Err(("reason/local-notification", "the daemon ended the session with a NOTIFICATION; the PeerDown does not say so (reason 1 + the NOTIFICATION)", format!("reason {} data {}; daemon sent {}", reason, hex(data), notif_str(&wire))));
                             }
+                            if !parsed.as_ref().is_some_and(|g| notif_eq(g, &wire)) {
+                                return Err(("notification-differs/local", "NOTIFICATION in the PeerDown is not the one the daemon sent", format!("PeerDown carries {:?}; daemon sent {}", parsed.as_ref().map(notif_str), notif_str(&wire))));
+                            }
+                            Ok(true)
                         }
                         (CloseKind::Drop, _, _) => {
                             if *reason == 1 || *reason == 3 {
-                                fail = Some(finding(
-                                    "peer-down",
-                                    "reason/no-notification",
-                                    "the session ended without any NOTIFICATION but the PeerDown carries one",
-                                    format!("reason {} data {}", reason, hex(data)),
-                                    &[],
-                                ));
+                                return Err(("reason/no-notification", "the session ended without any NOTIFICATION but the PeerDown carries one", format!("reason {} data {}", reason, hex(data))));
+                            }
+                            Ok(true)
+                        }
+                        _ => Ok(false),
+                    }
+                };
+                let mut fail: Option<Finding> = None;
+                let mut stale = false;
+                if let Err((c, d)) = check_hdr(hdr, &e) {
+                    fail = Some(finding("peer-down", &c, "per-peer header of the PeerDown does not describe the peer", d, &[]));
+                } else if s.close.is_none() {
+                    rep.count("unjudged:e2e-peer-down-of-session-still-open");
+                } else {
+                    match against(s) {
+                        Ok(true) => {
+                            downs_matched.insert(si);
+                        }
+                        Ok(false) => rep.count("unjudged:e2e-peer-down-close-not-observed"),
+                        Err((c, what, d)) => {
+                            // BMP has no session identity: the PeerUp the station holds names the session by its
+                            // ports, a PeerDown only the peer.  A station that joined while the *previous* session
+                            // of this peer was ending can read that session's PeerDown (queued before) after the
+                            // PeerUp of the new session (read from Global later): judged against that session.
+                            let prev = out
+                                .sessions
+                                .iter()
+                                .enumerate()
+                                .filter(|(_, x)| x.spk == s.spk && x.up_step < s.up_step)
+                                .max_by_key(|(_, x)| x.up_step);
+                            match prev {
+                                Some((pi, px)) if !st.quiescent && !downs_matched.contains(&pi) && px.down_step.is_some_and(|d| d >= st.connect_step) && matches!(against(px), Ok(true)) => {
+                                    downs_matched.insert(pi);
+                                    stale = true;
+                                    rep.count("unjudged:e2e-peer-down-of-previous-session-after-peer-up-of-the-next");
+                                }
+                                _ => fail = Some(finding("peer-down", c, what, d, &[])),
                             }
                         }
-                        _ => rep.count("unjudged:e2e-peer-down-close-not-observed"),
                     }
-                } else {
-                    rep.count("unjudged:e2e-peer-down-of-session-still-open");
                 }
                 match fail {
                     Some(f) => report(
@@ -3641,16 +3626,13 @@ fn judge_station_c19(rep: &mut Report, ps: &mut Parsers, out: &Outcome, sti: usi
                         f,
                         ctx(vec![
                             ("peer", Json::s(cfg.addr.to_string())),
-                            (
-                                "close",
-                                Json::s(format!("{:?}", s.close.as_ref().map(|c| c.kind))),
-                            ),
+                            ("close", Json::s(format!("{:?} (session with source port {}, paired by the ports of the PeerUp the station holds)", s.close.as_ref().map(|c| c.kind), s.my_port))),
                         ]),
                         hseed,
                     ),
                     None => {
                         rep.count(&format!("e2e:peer-down/reason-{}", reason));
-                        if info.from_global {
+                        if info.from_global && !stale {
                             rep.count("e2e:peer-down-after-reconstructed-peer-up");
                         }
                         if *reason == 1 || *reason == 3 {
@@ -4218,7 +4200,18 @@ fn run_e2e(rng: &mut Rng, ps: &mut Parsers, prm: &E2eParams, k: u64) -> Option<O
         .enable_all()
         .build()
         .ok()?;
-    let out = rt.block_on(e2e_script(rng, ps, prm, k));
+    // churn histories: delay injection at the daemon's own scheduling points (TableManager::subscribe before /
+    // after the subscriber registration and between shards, peer_down, insert / remove, unregister_peer) widens
+    // the windows in which a session's last events fall into a new station's snapshot phase
+    let hooks = prm.churn && (rng.chance(3, 4) || std::env::var("VERIF_FORCE_HOOKS").is_ok());
+    if hooks {
+        crate::verif_hooks::install(rng.next_u64(), *rng.pick(&[40u32, 70, 95]));
+    }
+    let mut out = rt.block_on(e2e_script(rng, ps, prm, k));
+    if hooks {
+        let (hits, _) = crate::verif_hooks::uninstall();
+        out.sched_hits = hits;
+    }
     rt.shutdown_timeout(Duration::from_millis(200));
     Some(out)
 }
@@ -4581,10 +4574,14 @@ fn judge_station_rib_c18(rep: &mut Report, out: &Outcome, sti: usize, hseed: u64
                     .all(|k| orph.is_some_and(|o| o.contains(*k)));
             let sig = if missing.is_empty() && all_orphan {
                 "C18/bmp-station/routes-of-departed-peer"
+            } else if departed && missing.is_empty() && open.contains(&cfg.addr) {
+                "C18/bmp-station/peer-down-never-delivered"
             } else {
                 "C18/bmp-station/adj-rib-in-differs"
             };
-            let what = if sig.ends_with("departed-peer") {
+            let what = if sig.ends_with("never-delivered") {
+                "a BMP station was sent the PeerUp and the routes of a session that was ending while the station subscribed, but never its PeerDown: the station keeps a peer and routes the RIB no longer holds"
+            } else if sig.ends_with("departed-peer") {
                 "a BMP station was sent RouteMonitoring of a session that had ended without ever being sent its PeerUp; the PeerDown is then suppressed, so the station keeps routes the RIB no longer holds (last event delivered is not the current state)"
             } else {
                 "the Adj-RIB-In a BMP station ends with (snapshot + live RouteMonitoring, PeerDown clears the peer) is not the one the RIB holds"
@@ -4906,7 +4903,11 @@ fn c18_peer_tracking() {
         if !rep.in_budget() {
             break;
         }
-        let hseed = rng.next_u64();
+        let mut hseed = rng.next_u64();
+        // replay of one history by its seed (hseed=<history_seed of a witness>), repeated
+        if let Some(h) = params.get("hseed").and_then(|h| h.parse::<u64>().ok()) {
+            hseed = h;
+        }
         let Some(out) = run_e2e(
             &mut Rng::new(hseed),
             &mut ps,
@@ -4925,6 +4926,10 @@ fn c18_peer_tracking() {
             eprintln!("[C18 e2e {}] {}", hseed, p);
         }
         rep.count("c18:e2e-histories");
+        if out.sched_hits > 0 {
+            rep.count("c18:e2e-histories-with-delay-injection");
+            rep.count_n("c18:e2e-sched-point-hits", out.sched_hits);
+        }
         rep.count_n("c18:e2e-sessions", out.sessions.len() as u64);
         for i in 0..out.stations.len() {
             judge_station_c18(&mut rep, &out, i, hseed);
@@ -4972,12 +4977,17 @@ fn run() {
             if !rep.in_budget() {
                 break;
             }
-            let hseed = rng.next_u64();
+            let mut hseed = rng.next_u64();
             if params
                 .get("only")
                 .is_some_and(|o| o.parse::<u64>().ok() != Some(k))
             {
                 continue;
+            }
+            // replay of one history by its seed (hseed=<history_seed of a witness>); repeated `n` times,
+            // the interleaving differs from run to run
+            if let Some(h) = params.get("hseed").and_then(|h| h.parse::<u64>().ok()) {
+                hseed = h;
             }
             let Some(out) = run_e2e(
                 &mut Rng::new(hseed),
@@ -4999,6 +5009,36 @@ fn run() {
             e2e_counts(&mut rep, &out);
             if params.flag("trace") {
                 eprintln!("[e2e {}] t={:.2}s steps={:?}", k, rep.elapsed(), out.steps);
+                for s in &out.sessions {
+                    eprintln!(
+                        "[e2e {}]   session spk {} port {} up_step {} down_step {:?} close {:?} observed {}",
+                        k,
+                        s.spk,
+                        s.my_port,
+                        s.up_step,
+                        s.down_step,
+                        s.close.as_ref().map(|c| c.kind),
+                        s.close_observed
+                    );
+                }
+                for (xi, x) in out.stations.iter().enumerate() {
+                    eprintln!(
+                        "[e2e {}]   station {} policy {} connect_step {}: {:?}",
+                        k,
+                        xi,
+                        policy_name(x.policy),
+                        x.connect_step,
+                        x.msgs
+                            .iter()
+                            .enumerate()
+                            .filter_map(|(i, (_, m))| match m {
+                                StMsg::PeerUp { hdr, rport, .. } => Some(format!("#{} up {} t{} rport {}", i, hdr.addr(), hdr.ptype, rport)),
+                                StMsg::PeerDown { hdr, reason, .. } => Some(format!("#{} down {} r{}", i, hdr.addr(), reason)),
+                                _ => None,
+                            })
+                            .collect::<Vec<_>>()
+                    );
+                }
             }
             for i in 0..out.stations.len() {
                 judge_station_c19(&mut rep, &mut ps, &out, i, hseed);
